@@ -1,7 +1,7 @@
 (* SemScope.v — C10: lexical scoping and structured control flow of the
    evaluator model Sem.v.  Proofs only; Sem.v is not modified. *)
 From Coq Require Import ZArith NArith List String Bool Floats FMapPositive Lia.
-From EvyV Require Import Base Num Ast Omap Sem.
+From EvyV Require Import Base Num Ast Omap OmapProofs Sem.
 Import ListNotations.
 
 (* ====================================================================== *)
@@ -1186,4 +1186,267 @@ Proof.
     constructor; [exact B|]. apply IHfor_trace.
     eapply ext_keeps_name; [|exact I1].
     destruct (scope_inv_all k) as (_ & _ & Hb & _). apply Hb in H1. exact H1.
+Qed.
+
+Local Open Scope nat_scope.
+
+(* --- 6.3 numeric ranges --- *)
+(* the sequence cur, cur+step, cur+step+step, ... (IEEE additions) up to the
+   first value for which stepRange.next()'s stop test holds; [k] bounds the
+   length so that the definition is total *)
+Fixpoint go_steps (k : nat) (cur stop step : float) : list float :=
+  match k with
+  | O => []
+  | S k' => if step_done cur stop step then [] else cur :: go_steps k' (cur + step)%float stop step
+  end.
+
+Lemma hget_alloc h v : hget (snd (halloc h v)) (fst (halloc h v)) = Some v.
+Proof. unfold hget, halloc; simpl. apply PositiveMap.gss. Qed.
+
+Lemma alloc_inv v st l st1 : alloc v st = (Ok l, st1) -> hget (st_heap st1) l = Some v.
+Proof.
+  unfold alloc. destruct (halloc (st_heap st) v) as [l0 h] eqn:E. intro H; inversion H; subst. simpl.
+  pose proof (hget_alloc (st_heap st) v) as G. rewrite E in G. exact G.
+Qed.
+
+Lemma for_next_step_none cur stop step st st1 :
+  for_next (RgStep cur stop step) st = (Ok None, st1) -> step_done cur stop step = true /\ st1 = st.
+Proof.
+  simpl. destruct (step_done cur stop step).
+  - intro H; inversion H; split; reflexivity.
+  - intro H. apply bindM_inv in H as (l & s1 & _ & H). discriminate.
+Qed.
+
+Lemma for_next_step_some cur stop step st l rg' st1 :
+  for_next (RgStep cur stop step) st = (Ok (Some (l, rg')), st1) ->
+  step_done cur stop step = false /\ rg' = RgStep (cur + step)%float stop step /\
+  hget (st_heap st1) l = Some (HNum cur).
+Proof.
+  simpl. destruct (step_done cur stop step); [discriminate|].
+  intro H. apply bindM_inv in H as (l0 & s1 & A & H). inversion H; subst.
+  repeat split. eapply alloc_inv; exact A.
+Qed.
+
+Theorem for_num_spec P var body a b c e st tr en e' st' :
+  for_trace P var body (RgStep a b c) e st tr en e' st' ->
+  map visit_val tr = map (fun x => Some (HNum x)) (go_steps (List.length tr) a b c) /\
+  (en = FeDone -> go_steps (S (List.length tr)) a b c = go_steps (List.length tr) a b c).
+Proof.
+  intro H. remember (RgStep a b c) as rg eqn:R. revert a R.
+  induction H; intros a R; subst rg.
+  - apply for_next_step_none in H as [D _]. split; [reflexivity|]. intros _. simpl. rewrite D. reflexivity.
+  - apply for_next_step_some in H as (D & _ & V). split; [|discriminate].
+    simpl. rewrite D. unfold visit_val; simpl. rewrite V. reflexivity.
+  - apply for_next_step_some in H as (D & _ & V). split; [|discriminate].
+    simpl. rewrite D. unfold visit_val; simpl. rewrite V. reflexivity.
+  - apply for_next_step_some in H as (D & -> & V).
+    destruct (IHfor_trace _ eq_refl) as [I1 I2]. split.
+    + cbn [List.length map go_steps]. rewrite D. cbn [map]. rewrite <- I1. unfold visit_val at 1; simpl. rewrite V. reflexivity.
+    + intro E. specialize (I2 E). cbn [List.length]. cbn [go_steps] in *. rewrite D. f_equal. exact I2.
+Qed.
+
+(* the sequence of the task statement: continue while
+   (step > 0 and cur < stop) or (step < 0 and cur > stop) *)
+Definition step_live (cur stop step : float) : bool :=
+  (PrimFloat.ltb 0 step && PrimFloat.ltb cur stop) || (PrimFloat.ltb step 0 && PrimFloat.ltb stop cur).
+
+Fixpoint steps (k : nat) (cur stop step : float) : list float :=
+  match k with
+  | O => []
+  | S k' => if step_live cur stop step then cur :: steps k' (cur + step)%float stop step else []
+  end.
+
+(* --- 6.4 arrays: the live array is re-read at every iteration --- *)
+Lemma load_inv l st v st1 : load l st = (Ok v, st1) -> st1 = st /\ hget (st_heap st) l = Some v.
+Proof. unfold load. destruct (hget (st_heap st) l); intro H; inversion H; subst; split; reflexivity. Qed.
+
+Lemma for_next_arr_none a i st st1 :
+  for_next (RgArr a i) st = (Ok None, st1) ->
+  st1 = st /\ exists els, hget (st_heap st) a = Some (HArr els) /\ List.length els <= i.
+Proof.
+  simpl. intro H. apply bindM_inv in H as (v & s1 & L & H). apply load_inv in L as [-> L].
+  destruct v; try discriminate. destruct (nth_error els i) eqn:N; inversion H; subst.
+  split; [reflexivity|]. exists els. split; [exact L | apply nth_error_None; exact N].
+Qed.
+
+Lemma for_next_arr_some a i st l rg' st1 :
+  for_next (RgArr a i) st = (Ok (Some (l, rg')), st1) ->
+  st1 = st /\ rg' = RgArr a (S i) /\
+  exists els, hget (st_heap st) a = Some (HArr els) /\ nth_error els i = Some l.
+Proof.
+  simpl. intro H. apply bindM_inv in H as (v & s1 & L & H). apply load_inv in L as [-> L].
+  destruct v; try discriminate. destruct (nth_error els i) eqn:N; inversion H; subst.
+  repeat split. exists els. split; [exact L | exact N].
+Qed.
+
+Definition arr_visit (a : loc) (i : nat) (v : visit) : Prop :=
+  v_rg v = RgArr a i /\ v_st1 v = v_st v /\
+  exists els, hget (st_heap (v_st v)) a = Some (HArr els) /\ nth_error els i = Some (v_loc v).
+
+(* iteration number j (from 0) delivers element i0+j of the array as it is
+   at that moment; the loop ends normally when the live array has no such element *)
+Theorem for_array_spec P var body a i0 e st tr en e' st' :
+  for_trace P var body (RgArr a i0) e st tr en e' st' ->
+  Forall2 (arr_visit a) (seq i0 (List.length tr)) tr /\
+  (en = FeDone -> exists els, hget (st_heap st') a = Some (HArr els) /\
+                              List.length els <= i0 + List.length tr).
+Proof.
+  intro H. remember (RgArr a i0) as rg eqn:R. revert i0 R.
+  induction H; intros i0 R; subst rg.
+  - apply for_next_arr_none in H as (-> & els & L & N). split; [constructor|].
+    intros _. exists els. split; [exact L | simpl; lia].
+  - apply for_next_arr_some in H as (-> & _ & els & L & N). split; [|discriminate].
+    repeat constructor; simpl. exists els; split; assumption.
+  - apply for_next_arr_some in H as (-> & _ & els & L & N). split; [|discriminate].
+    repeat constructor; simpl. exists els; split; assumption.
+  - apply for_next_arr_some in H as (-> & -> & els & L & N).
+    destruct (IHfor_trace _ eq_refl) as [I1 I2]. split.
+    + simpl. constructor; [|exact I1]. repeat split; simpl. exists els; split; assumption.
+    + intro E. destruct (I2 E) as (els' & L' & N'). exists els'. split; [exact L' | simpl; lia].
+Qed.
+
+(* --- 6.5 strings: the code points of the string as it was at loop entry --- *)
+Lemma for_next_str_none s i st st1 :
+  for_next (RgStr s i) st = (Ok None, st1) -> st1 = st /\ List.length s <= i.
+Proof.
+  simpl. destruct (nth_error s i) eqn:N.
+  - intro H. apply bindM_inv in H as (l & s1 & _ & H). discriminate.
+  - intro H; inversion H. split; [reflexivity | apply nth_error_None; exact N].
+Qed.
+
+Lemma for_next_str_some s i st l rg' st1 :
+  for_next (RgStr s i) st = (Ok (Some (l, rg')), st1) ->
+  rg' = RgStr s (S i) /\ exists c, nth_error s i = Some c /\ hget (st_heap st1) l = Some (HStr [c]).
+Proof.
+  simpl. destruct (nth_error s i) as [c|] eqn:N; [|discriminate].
+  intro H. apply bindM_inv in H as (l0 & s1 & A & H). inversion H; subst.
+  split; [reflexivity|]. exists c. split; [reflexivity | eapply alloc_inv; exact A].
+Qed.
+
+Lemma skipn_nth_cons {A} (l : list A) i c : nth_error l i = Some c -> skipn i l = c :: skipn (S i) l.
+Proof.
+  revert i; induction l as [|x t IH]; intros [|i] H; simpl in *; try discriminate.
+  - inversion H; reflexivity.
+  - apply IH; exact H.
+Qed.
+
+Theorem for_string_spec P var body s i0 e st tr en e' st' :
+  for_trace P var body (RgStr s i0) e st tr en e' st' ->
+  map visit_val tr = map (fun c => Some (HStr [c])) (firstn (List.length tr) (skipn i0 s)) /\
+  (en = FeDone -> List.length s <= i0 + List.length tr).
+Proof.
+  intro H. remember (RgStr s i0) as rg eqn:R. revert i0 R.
+  induction H; intros i0 R; subst rg.
+  - apply for_next_str_none in H as (-> & N). split; [reflexivity | intros _; simpl; lia].
+  - apply for_next_str_some in H as (_ & c & N & V). split; [|discriminate].
+    simpl. rewrite (skipn_nth_cons _ _ _ N). unfold visit_val; simpl. rewrite V. reflexivity.
+  - apply for_next_str_some in H as (_ & c & N & V). split; [|discriminate].
+    simpl. rewrite (skipn_nth_cons _ _ _ N). unfold visit_val; simpl. rewrite V. reflexivity.
+  - apply for_next_str_some in H as (-> & c & N & V).
+    destruct (IHfor_trace _ eq_refl) as [I1 I2]. split.
+    + cbn [List.length map]. rewrite (skipn_nth_cons _ _ _ N). cbn [firstn map]. rewrite <- I1.
+      unfold visit_val at 1; simpl. rewrite V. reflexivity.
+    + intro E. specialize (I2 E). simpl. lia.
+Qed.
+
+(* a loop that ends normally from index 0 has visited the whole entry string *)
+Corollary for_string_complete P var body s e st tr e' st' :
+  for_trace P var body (RgStr s 0) e st tr FeDone e' st' ->
+  map visit_val tr = map (fun c => Some (HStr [c])) s.
+Proof.
+  intro H. pose proof H as H0. apply for_string_spec in H as [H1 H2]. specialize (H2 eq_refl).
+  rewrite H1. simpl. rewrite firstn_all2 by (simpl in H2; exact H2). reflexivity.
+Qed.
+
+(* --- 6.6 maps: the keys of the entry snapshot that are still present when reached --- *)
+Lemma map_next_none m om todo st st1 :
+  map_next m om todo st = (Ok None, st1) -> st1 = st /\ Forall (fun k => ohas k om = false) todo.
+Proof.
+  induction todo as [|k t IH]; simpl.
+  - intro H; inversion H. split; [reflexivity | constructor].
+  - destruct (ohas k om) eqn:O.
+    + intro H. apply bindM_inv in H as (l & s1 & _ & H). discriminate.
+    + intro H. apply IH in H as [-> F]. split; [reflexivity | constructor; assumption].
+Qed.
+
+Lemma map_next_some m om todo st l rg' st1 :
+  map_next m om todo st = (Ok (Some (l, rg')), st1) ->
+  exists skipped k rest, todo = skipped ++ k :: rest /\
+    Forall (fun x => ohas x om = false) skipped /\ ohas k om = true /\
+    rg' = RgMap m rest /\ hget (st_heap st1) l = Some (HStr k).
+Proof.
+  induction todo as [|k t IH]; simpl; [discriminate|].
+  destruct (ohas k om) eqn:O.
+  - intro H. apply bindM_inv in H as (l0 & s1 & A & H). inversion H; subst.
+    exists [], k, t. repeat split; [constructor | exact O | eapply alloc_inv; exact A].
+  - intro H. apply IH in H as (sk & k' & rest & -> & F & O' & R & V).
+    exists (k :: sk), k', rest. repeat split; try assumption. constructor; assumption.
+Qed.
+
+Inductive map_walk (m : loc) : list str -> list visit -> for_end -> state -> Prop :=
+| mw_done todo om stf :
+    hget (st_heap stf) m = Some (HMap om) -> Forall (fun k => ohas k om = false) todo ->
+    map_walk m todo [] FeDone stf          (* every remaining snapshot key is gone: loop ends *)
+| mw_left todo en stf :
+    en <> FeDone -> map_walk m todo [] en stf   (* loop left by break/return *)
+| mw_visit skipped k rest v tr en stf om :
+    v_rg v = RgMap m (skipped ++ k :: rest) ->
+    hget (st_heap (v_st v)) m = Some (HMap om) ->       (* the live map when next() runs *)
+    Forall (fun x => ohas x om = false) skipped ->      (* deleted meanwhile: skipped *)
+    ohas k om = true ->                                 (* still present: visited *)
+    visit_val v = Some (HStr k) ->
+    map_walk m rest tr en stf ->
+    map_walk m (skipped ++ k :: rest) (v :: tr) en stf.
+
+Lemma for_next_map_none m todo st st1 :
+  for_next (RgMap m todo) st = (Ok None, st1) ->
+  st1 = st /\ exists om, hget (st_heap st) m = Some (HMap om) /\ Forall (fun k => ohas k om = false) todo.
+Proof.
+  simpl. intro H. apply bindM_inv in H as (v & s1 & L & H). apply load_inv in L as [-> L].
+  destruct v; try discriminate. apply map_next_none in H as [-> F].
+  split; [reflexivity|]. exists m0. split; assumption.
+Qed.
+
+Lemma for_next_map_some m todo st l rg' st1 :
+  for_next (RgMap m todo) st = (Ok (Some (l, rg')), st1) ->
+  exists om skipped k rest, hget (st_heap st) m = Some (HMap om) /\ todo = skipped ++ k :: rest /\
+    Forall (fun x => ohas x om = false) skipped /\ ohas k om = true /\
+    rg' = RgMap m rest /\ hget (st_heap st1) l = Some (HStr k).
+Proof.
+  simpl. intro H. apply bindM_inv in H as (v & s1 & L & H). apply load_inv in L as [-> L].
+  destruct v; try discriminate. apply map_next_some in H as (sk & k & rest & E & F & O & R & V).
+  exists m0, sk, k, rest. repeat split; assumption.
+Qed.
+
+Theorem for_map_spec P var body m todo e st tr en e' st' :
+  for_trace P var body (RgMap m todo) e st tr en e' st' -> map_walk m todo tr en st'.
+Proof.
+  intro H. remember (RgMap m todo) as rg eqn:R. revert todo R.
+  induction H; intros todo R; subst rg.
+  - apply for_next_map_none in H as (-> & om & L & F). eapply mw_done; eassumption.
+  - apply for_next_map_some in H as (om & sk & k' & rest & L & -> & F & O & _ & V).
+    eapply mw_visit; try eassumption; try reflexivity. apply mw_left; discriminate.
+  - apply for_next_map_some in H as (om & sk & k' & rest & L & -> & F & O & _ & V).
+    eapply mw_visit; try eassumption; try reflexivity. apply mw_left; discriminate.
+  - apply for_next_map_some in H as (om & sk & k' & rest & L & -> & F & O & -> & V).
+    eapply mw_visit; try eassumption; try reflexivity. apply IHfor_trace; reflexivity.
+Qed.
+
+(* visited keys, in order, form a subsequence of the entry snapshot *)
+Lemma subseq_nil_l {A} (l : list A) : subseq [] l.
+Proof. induction l; constructor; assumption. Qed.
+
+Lemma subseq_skip_app {A} (sk l1 l2 : list A) : subseq l1 l2 -> subseq l1 (sk ++ l2).
+Proof. induction sk; simpl; [tauto | intro H; constructor; apply IHsk; exact H]. Qed.
+
+Corollary map_walk_subseq m todo tr en stf :
+  map_walk m todo tr en stf ->
+  exists ks, map visit_val tr = map (fun k => Some (HStr k)) ks /\ subseq ks todo.
+Proof.
+  induction 1.
+  - exists []. split; [reflexivity | apply subseq_nil_l].
+  - exists []. split; [reflexivity | apply subseq_nil_l].
+  - destruct IHmap_walk as (ks & E & S). exists (k :: ks). split.
+    + simpl. rewrite H3, E. reflexivity.
+    + apply subseq_skip_app. apply sub_take. exact S.
 Qed.
